@@ -9,6 +9,8 @@ MUT = [('column-normalise', BF, "        weights = np.asarray(C.sum(axis=1)).fla
        ('sym-minus', BF, "    C_sym = C + C.T", "    C_sym = C - C.T"),
        ('prior-dropped-in-normalize', BF, "def normalize(C, prior_counts=None, calculate_eq_probs=True):", "def normalize(C, prior_counts=None, calculate_eq_probs=True):\n    prior_counts = None"),
        ('prior-after-symmetrisation', BF, "    C = _apply_prior_counts(C, prior_counts)\n\n    C_sym = C + C.T", "    C_sym = C + C.T\n    C_sym = _apply_prior_counts(C_sym, prior_counts)")]
+MUT_MLE = [('mle-prior-not-used', BF, "    C = _apply_prior_counts(C, prior_counts)\n\n    sparsetype = np.array", "    _apply_prior_counts(C, prior_counts)\n\n    sparsetype = np.array"),
+           ('mle-populations-dropped', BF, "        T, equilibrium = _prinz_mle_py(C)", "        T, _ = _prinz_mle_py(C)")]
 
 
 def run(tier, seed, update_lock=False):
@@ -20,9 +22,12 @@ def run(tier, seed, update_lock=False):
             keys = [CB.F + 'transpose'] + ([CB.F + '_row_normalize', CB.F + '_apply_prior_counts', CB.F + 'normalize'] if eq else [])
             units.append(Unit('builders-dense[prior=%s,populations=%s]' % (prior, eq), reg, keys=keys,
                               mutants=(MUT[:4] if (prior, eq) == ('none', True) else MUT[4:] if (prior, eq) == ('scalar', True) else [])))
-    for u in units:
+    # the maximum-likelihood builder's dense wrapper: the estimator (C12's contract; here an opaque function of its argument) runs on counts + prior
+    mle_units = [Unit('mle-dense[prior=%s,populations=%s]' % (prior, eq), CB.registry_mle(prior, eq), keys=[CB.F + 'mle'],
+                      mutants=MUT_MLE if (prior, eq) == ('scalar', True) else []) for prior in ('none', 'scalar') for eq in (True, False)]
+    for u in units + mle_units:
         R.prove(u)
-    for u in units[:3]:
+    for u in units[:3] + mle_units[2:3]:
         R.canary_check(u)
     R.lemma('TransposeBuilder.lean', 'symmetric S: rows of S/rowsum sum to 1; detailed balance and stationarity with pi = rowsum/total')
     R.bounded('C04.py', 'run-time contracts (the statement) on the real builders over the complete container product',
@@ -30,6 +35,7 @@ def run(tier, seed, update_lock=False):
     R.report_known('C04.py')
     resolve_failures(R, 'C04.py', lambda f: None)
     R.clauses = [{'clause': 'dense ndarray branch: row-normalised matrix = counts over row totals (zero-row guard); transpose = (C+prior)+(C+prior)^T, returned counts = half of it, probabilities = its row normalisation, populations = symmetric row totals over the total; prior counts added before estimation; no populations unless asked; caller\'s matrix unchanged', 'status': 'proved (SMT on the real _row_normalize / _apply_prior_counts / normalize / transpose, non-linear real arithmetic); that such matrices are stochastic, reversible and stationary is lemmas/TransposeBuilder.lean'},
+                 {'clause': 'maximum-likelihood builder, dense branch: prior counts added once before estimation; returned counts = counts + prior; returned matrix and populations are the estimator\'s results for exactly that matrix', 'status': 'proved (SMT on the real mle wrapper; the estimator _prinz_mle_py enters as an opaque function of its argument - what it computes is C12)'},
                  {'clause': 'rows are distributions; normalize = counts / row totals; transpose = symmetrise then normalise; populations stationary; detailed balance', 'status': 'bounded (run-time contracts, enumerated + seeded matrices <= 4 states)'},
                  {'clause': 'same numbers for dense and all 8 sparse containers; output container = input container; prior counts added before estimation; caller\'s matrix unchanged', 'status': 'bounded (complete container x option product)'},
                  {'clause': 'leading eigenvalue 1 with a positive eigenvector (Perron-Frobenius)', 'status': 'assumed'}]
